@@ -62,3 +62,49 @@ Section L.
     - right. apply IH; assumption.
   Qed.
 End L.
+
+(* ---- which directories a deep walk lists (mirror of the recursion of glob_dir, deep = true) ---- *)
+Section Listed.
+  Variable scandir : str -> option (list entry).
+  Variable cf : gcfg.
+
+  Fixpoint listed (fuel : nat) (curdir : str) (dir_only gfollow : bool) : list str :=
+    match fuel with
+    | O => []
+    | S f =>
+      curdir ::
+      flat_map (fun x =>
+        let '(file, is_dir, hidden, is_link) := x in
+        if is_special file then []
+        else if negb hidden && is_dir && (negb is_link || g_follow cf || gfollow)
+             then listed f (pjoin curdir file) dir_only gfollow else [])
+        (iter scandir cf curdir dir_only)
+    end.
+
+  Lemma listed_rule fuel : forall curdir dir_only gf d,
+    In d (listed fuel curdir dir_only gf) ->
+    d = curdir \/
+    exists parent name isdir hidden islink,
+      In parent (listed fuel curdir dir_only gf) /\
+      In (name, isdir, hidden, islink) (iter scandir cf parent dir_only) /\
+      d = pjoin parent name /\ is_special name = false /\ hidden = false /\ isdir = true /\
+      (islink = false \/ g_follow cf = true \/ gf = true).
+  Proof.
+    induction fuel as [|f IH]; intros curdir dir_only gf d H; [destruct H|].
+    cbn [listed] in H. destruct H as [<-|H]; [left; reflexivity|].
+    apply in_flat_map in H as [[[[file is_dir] hidden] is_link] [Hin Hd]].
+    destruct (is_special file) eqn:Es; [destruct Hd|].
+    destruct (negb hidden && is_dir && (negb is_link || g_follow cf || gf)) eqn:Ec; [|destruct Hd].
+    apply andb_prop in Ec as [Ec1 Ec3]. apply andb_prop in Ec1 as [Ec1 Ec2].
+    assert (Hsub : forall x, In x (listed f (pjoin curdir file) dir_only gf) -> In x (listed (S f) curdir dir_only gf)).
+    { intros x Hx. cbn [listed]. right. apply in_flat_map. exists (file, is_dir, hidden, is_link). split; [exact Hin|].
+      rewrite Es, Ec1, Ec2, Ec3. exact Hx. }
+    destruct (IH _ _ _ _ Hd) as [->|[parent [name [a [b [c [P1 [P2 P3]]]]]]]].
+    - right. exists curdir, file, is_dir, hidden, is_link.
+      split; [cbn [listed]; left; reflexivity|]. split; [exact Hin|]. split; [reflexivity|]. split; [exact Es|].
+      split; [destruct hidden; [discriminate|reflexivity]|]. split; [exact Ec2|].
+      destruct is_link; [|left; reflexivity]. cbn [negb orb] in Ec3.
+      destruct (g_follow cf); [right; left; reflexivity|]. right; right. exact Ec3.
+    - right. exists parent, name, a, b, c. split; [apply Hsub; exact P1|]. split; [exact P2|exact P3].
+  Qed.
+End Listed.
